@@ -145,7 +145,15 @@ pub fn gen(seed: u64, cases: usize, flavour: &str, path: &str) {
                     if kind != 0 && px.is_none() {
                         g.stats.bump("priced_type_without_price");
                     }
-                    g.line(&format!("I {} {} {} {}", t, sym, fb(sh), px_tok(&px)));
+                    // an order object may arrive with its public `order_id` already set (re-sent after a tick returned
+                    // it, or decoded from JSON): the exchange must still stamp the next id
+                    if g.rng.chance(1, 12) {
+                        let preset = g.rng.below(9);
+                        g.line(&format!("I {} {} {} {} {}", t, sym, fb(sh), px_tok(&px), preset));
+                        g.stats.bump("insert_with_preset_id");
+                    } else {
+                        g.line(&format!("I {} {} {} {}", t, sym, fb(sh), px_tok(&px)));
+                    }
                     g.stats.bump(&format!("insert_type_{t}"));
                     pending += 1;
                 }
@@ -193,7 +201,10 @@ pub fn run(ops: &str, annot: &str, imp: &str) {
             }
             "I" => {
                 let px = if toks[4] == "-" { None } else { Some(pf(toks[4])) };
-                let o = mk_order(pu(toks[1]), toks[2], pf(toks[3]), px);
+                let mut o = mk_order(pu(toks[1]), toks[2], pf(toks[3]), px);
+                if toks.len() > 5 {
+                    o.order_id = Some(pu(toks[5]));
+                }
                 if let Some(p) = px {
                     resting_px.push(p.to_bits());
                 }
